@@ -106,6 +106,25 @@ def _int_widens(x, y):
     return sx == 0 and sy == 1 and by > bx
 
 
+def _delegates_to_own_deserialize(lib, b, value_impl):
+    """The visit method returns, unchanged, what `<Value as Deserialize>::deserialize` makes of its own deserializer
+    parameter."""
+    if b.nargs != 2:
+        return False
+    tr = trace(b, {"k": "copy", "p": {"l": 0, "pr": []}})
+    if not (tr.origin and tr.origin[0] == "call" and all(s_[0] == "use" for s_ in tr.steps)):
+        return False
+    t = tr.origin[2]
+    f = fn_of(t) or {}
+    if not (f.get("trait") in ("serde::Deserialize", "serde::de::Deserialize") and f.get("name") == "deserialize" and len(t["args"]) == 1):
+        return False
+    # of the Value type itself: the call's result type is the method's own
+    if b.local_ty(t["dest"]["l"]) != b.local_ty(0):
+        return False
+    at = trace(b, t["args"][0])
+    return bool(at.origin == ("arg", 2) and all(s_[0] == "use" for s_ in at.steps))
+
+
 @rule("R01.3", 21, "borrowed Value: visit_T -> variant -> serialize_T compose to the identity; strings/bytes/collections keep payload and order", ["C01", "C06"])
 def r01_3(ctx):
     lib = ctx.lib
@@ -144,6 +163,11 @@ def r01_3(ctx):
                             fty = (lib.adts.get(adt_name) or {}).get("variants", [])
                             fty = [v_["fields"][0]["ty"] for v_ in fty if v_["name"] == variant and v_["fields"]]
                             payload_ok = bool(p2.origin == ("arg", 2)) and not bad2 and bool(fty) and _int_widens(b.local_ty(2), fty[0])
+        if variant is None and _delegates_to_own_deserialize(lib, b, value):
+            # `visit_some(d)` / `visit_newtype_struct(d)`: the wrapper is transparent, the value inside is deserialized
+            # by the same impl and judged by the other rows
+            ctx.ob(f"in:{name}:transparent", True, site(b), "hands its deserializer to the same Deserialize impl and returns that result unchanged")
+            continue
         v_of[name] = variant
         ctx.ob(f"in:{name}:payload", payload_ok and variant is not None, site(b), f"stores the parameter unchanged in Value::{variant}" if payload_ok else f"payload of Value::{variant} is not the visited value as given")
     ctx.need(adt_name, "Value ADT not identified from the visitor")
@@ -271,6 +295,12 @@ def r01_3(ctx):
         elif x in ("borrowed_bytes", "bytes", "byte_buf"):
             ok = roles.get(variant) == "Bytes"
             det = f"{name} -> Value::{variant}"
+        elif x == "none":
+            # an absent optional is a null: it leaves the way unit does (`serialize_none` is not a null for every
+            # target: toml skips the entry, R08.5)
+            y = y_of.get(variant)
+            ok = y == "serialize_unit" and v_of.get("visit_unit") == variant
+            det = f"{name} -> Value::{variant} -> {y} (same as visit_unit)"
         else:
             y = y_of.get(variant)
             ok = y == "serialize_" + x or bool(y and y.startswith("serialize_") and _int_widens(x, y[len("serialize_"):]))
